@@ -33,6 +33,9 @@ package buffer
 //@   ensures[S]  1 <= result1 && result1 <= 4
 //@   ensures[S]  z.pos+pos < len(z.buf)-1 ==> z.pos+pos+result1 <= len(z.buf)-1
 
+// the length follows the lead byte (as in unicode/utf8 for valid input); it is shorter only where a NUL (the terminator) follows
+//@   ensures[F,C12] @len-lead: result1 <= ite(z.buf[z.pos+pos] < 0xC0, 1, ite(z.buf[z.pos+pos] < 0xE0, 2, ite(z.buf[z.pos+pos] < 0xF0, 3, 4)))
+//@   ensures[F,C12] @len-full: (z.buf[z.pos+pos] >= 0xC0 && z.buf[z.pos+pos+1] != 0 ==> result1 >= 2) && (z.buf[z.pos+pos] >= 0xE0 && z.buf[z.pos+pos+1] != 0 && z.buf[z.pos+pos+2] != 0 ==> result1 >= 3) && (z.buf[z.pos+pos] >= 0xF0 && z.buf[z.pos+pos+1] != 0 && z.buf[z.pos+pos+2] != 0 && z.buf[z.pos+pos+3] != 0 ==> result1 == 4)
 //@   ensures[F,C12] @value1: result1 == 1 ==> result0 == z.buf[z.pos+pos]
 //@   ensures[F,C12] @value2: result1 == 2 ==> result0 == (z.buf[z.pos+pos] % 32) * 64 + z.buf[z.pos+pos+1] % 64
 //@   ensures[F,C12] @value3: result1 == 3 ==> result0 == (z.buf[z.pos+pos] % 16) * 4096 + (z.buf[z.pos+pos+1] % 64) * 64 + z.buf[z.pos+pos+2] % 64
@@ -136,6 +139,9 @@ package buffer
 //@   ensures[F,C13] @reuse: forall(i, 0, old(len(z.pool)), old(z.pool[i].active) || ptr(result) != old(ptr(z.pool[i].buf))) ==> fresh(result) || (ptr(result) == ptr(oldBuf) && old(z.tail) == 0 && old(z.pos) >= len(oldBuf))
 // unless the current buffer is reused in place, it becomes the head block of the pool, with exactly the length given
 //@   ensures[F,C13] @retired: ptr(result) != ptr(oldBuf) ==> z.head >= 1 && z.head <= len(z.pool) && sameSlice(z.pool[z.head-1].buf, oldBuf) && z.pool[z.head-1].active
+// retired blocks form a queue in the order they were retired (Free releases them in that order): the new block is linked
+// behind the previous head, and it becomes the tail only if the queue was empty
+//@   ensures[F,C13] @fifo: ptr(result) != ptr(oldBuf) ==> (old(z.head) != 0 ==> z.pool[old(z.head)-1].next == z.head) && z.tail == ite(old(z.tail) == 0, z.head, old(z.tail))
 // reusing the current buffer in place spends the freed credit that covered it; in every other case the credit is untouched
 //@   ensures[F,C13,perpath,local] @credit: z.pos == ite(swap == -1, old(z.pos) - len(oldBuf), old(z.pos))
 //@   loop 1 invariant 0 <= i && swap == -1
@@ -149,6 +155,8 @@ package buffer
 //@   ensures[F,C13] @cursor: slSameCursor(z)
 //@   ensures[F,C13] @byte: ite(old(slAbs(z)) + pos - slAbs(z) < len(z.buf), result == z.buf[old(slAbs(z)) + pos - slAbs(z)], result == 0 && z.err != nil)
 //@   ensures[F,C13] @kept: len(z.buf) - z.start >= old(len(z.buf) - z.start)
+// once the reader has failed (or ended) a refill changes nothing: the error is sticky and the delivered bytes stay as they are
+//@   ensures[F,C13] @sticky: old(z.err) != nil ==> z.err == old(z.err) && sameSlice(z.buf, old(z.buf)) && z.pos == old(z.pos) && z.start == old(z.start) && sameBytes()
 // accounting: a refill that changes buffers retires exactly the shifted bytes buf[:start] (what Free is counted against);
 // the unfinished token is carried over, not retired
 //@   ensures[F,C13] @retire-shifted: old(z.err) == nil && ptr(z.buf) != old(ptr(z.buf)) ==> z.pool.head >= 1 && len(z.pool.pool[z.pool.head-1].buf) == old(z.start) && ptr(z.pool.pool[z.pool.head-1].buf) == old(ptr(z.buf))
@@ -173,6 +181,7 @@ package buffer
 //@   ensures[F,C13] @cursor: slSameCursor(z)
 //@   ensures[F,C13] @byte: ite(z.pos + pos < len(z.buf), result == z.buf[z.pos + pos], result == 0 && z.err != nil)
 //@   ensures[F,C13] @noread: old(z.pos + pos < len(z.buf)) ==> sameBytes() && sameSlice(z.buf, old(z.buf)) && z.pos == old(z.pos) && z.start == old(z.start) && delivered(z.r) == old(delivered(z.r))
+//@   ensures[F,C13] @sticky: old(z.err) != nil ==> z.err == old(z.err) && sameSlice(z.buf, old(z.buf)) && z.pos == old(z.pos) && z.start == old(z.start) && sameBytes()
 
 //@ func StreamLexer.PeekRune
 //@   requires[S] slInv(z) && pos >= 0 && z.pos + pos + 3 <= (1<<57) && z.prevStart >= -(1<<59)
@@ -180,6 +189,13 @@ package buffer
 //@   requires[F] slView(z)
 //@   ensures[F]  slView(z)
 //@   ensures[F,C13] @cursor: slSameCursor(z)
+// the rune is decoded from the bytes at the cursor's absolute offsets, however many refills the look-ahead needed (stated over
+// the buffer after the call, which by slView holds exactly those stream bytes)
+//@   ensures[F,C13] @len: z.r != nil && z.pos + pos < len(z.buf) ==> result1 == ite(z.buf[z.pos+pos] < 0xC0, 1, ite(z.buf[z.pos+pos] < 0xE0, 2, ite(z.buf[z.pos+pos] < 0xF0, 3, 4)))
+//@   ensures[F,C13] @value1: z.r != nil && z.pos + pos < len(z.buf) && result1 == 1 ==> result0 == z.buf[z.pos+pos]
+//@   ensures[F,C13] @value2: z.r != nil && z.pos + pos + 1 < len(z.buf) && result1 == 2 ==> result0 == (z.buf[z.pos+pos] % 32) * 64 + z.buf[z.pos+pos+1] % 64
+//@   ensures[F,C13] @value3: z.r != nil && z.pos + pos + 2 < len(z.buf) && result1 == 3 ==> result0 == (z.buf[z.pos+pos] % 16) * 4096 + (z.buf[z.pos+pos+1] % 64) * 64 + z.buf[z.pos+pos+2] % 64
+//@   ensures[F,C13] @value4: z.r != nil && z.pos + pos + 3 < len(z.buf) && result1 == 4 ==> result0 == (z.buf[z.pos+pos] % 8) * 262144 + (z.buf[z.pos+pos+1] % 64) * 4096 + (z.buf[z.pos+pos+2] % 64) * 64 + z.buf[z.pos+pos+3] % 64
 
 //@ func StreamLexer.Move
 //@   requires[S] slInv(z) && z.pos + n >= z.start && z.pos + n <= (1<<57) && smallInt(n)
